@@ -327,6 +327,10 @@ def run(chk):
             if 'frag=1' in parts[3] and model_res != model_ref:
                 oblige_once('model:roundtrip-instance', 'theorem-instance', outs[i][:300])
         text = to_sql(ops, ref, lambda n: 'c%d' % n)
+        if i % 4 == 1:
+            # multi-word operators are one operator whatever blanks separate the words
+            wsp = ['  ', '\t', '\n', ' \n  '][(i // 4) % 4]
+            text = re.sub(r'\b(IS|NOT) (NOT|IN|LIKE)\b', lambda m_: m_.group(1) + wsp + m_.group(2), text)
         cn = ctx_ok[d]
         ctx = cn[i % len(cn)] if src == 'rnd' or not deep else None
         for c in ([ctx] if ctx else cn):
